@@ -148,7 +148,13 @@ def resolve_idx(spec, domain, shape_dims=None):
         return range(int(lo), int(hi) + 1), [d for d in D if lo <= d <= hi]
     if t == "slice":
         hi = D[spec["b"] % m]
-        return slice(0, int(hi) + 1), [d for d in D if 0 <= d <= hi]
+        if spec.get("a") is None:
+            return slice(0, int(hi) + 1), [d for d in D if 0 <= d <= hi]
+        lo = D[spec["a"] % m]
+        lo, hi = min(lo, hi), max(lo, hi)
+        if spec.get("open"):
+            return slice(int(lo), None), [d for d in D if d >= lo]
+        return slice(int(lo), int(hi) + 1), [d for d in D if lo <= d <= hi]
     if t == "mask":
         contiguous = D == list(range(m))
         if contiguous and shape_dims is not None and m in shape_dims:
